@@ -1564,6 +1564,8 @@ class TT():
                 else:
                     core = tn.einsum('...i,ijk->...jk', core, c)
                     so_far *= c.shape[1]
+                if k >= len(original_shape):
+                    raise ShapeMismatch('Mode sizes do not match.')
                 if so_far == original_shape[k]:
                     core = tn.reshape(
                         core, [core.shape[0], -1, core.shape[-1]])
